@@ -2349,11 +2349,33 @@ evhttp_get_body_length(struct evhttp_request *req)
 		req->ntoread = -1;
 	} else {
 		char *endp;
-		ev_int64_t ntoread = evutil_strtoll(content_length, &endp, 10);
-		if (*content_length == '\0' || *endp != '\0' || ntoread < 0) {
+		ev_int64_t ntoread;
+		struct evkeyval *header;
+		/* RFC 9110 8.6: Content-Length = 1*DIGIT; strtoll() would also
+		 * let through whitespace and a sign. */
+		if (!EVUTIL_ISDIGIT_(*content_length)) {
 			event_debug(("%s: illegal content length: %s",
 				__func__, content_length));
 			return (-1);
+		}
+		ntoread = evutil_strtoll(content_length, &endp, 10);
+		if (*endp != '\0' || ntoread < 0) {
+			event_debug(("%s: illegal content length: %s",
+				__func__, content_length));
+			return (-1);
+		}
+		/* RFC 9112 6.3: several Content-Length fields are only
+		 * acceptable when they all carry the same valid value */
+		TAILQ_FOREACH(header, headers, next) {
+			if (evutil_ascii_strcasecmp(header->key, "Content-Length") != 0)
+				continue;
+			if (!EVUTIL_ISDIGIT_(*header->value) ||
+			    evutil_strtoll(header->value, &endp, 10) != ntoread ||
+			    *endp != '\0') {
+				event_debug(("%s: conflicting content length: %s",
+					__func__, header->value));
+				return (-1);
+			}
 		}
 		req->ntoread = ntoread;
 	}
